@@ -194,6 +194,7 @@ inductive ModelKind where
   | wherenested (m r : Nat) | evalnested | alertnested (k : Nat)
   | stateduration (t : Int) | changedetect | derivative (nn : Bool) | windowc (p e : Nat) (fill : Bool)
   | alertthr (a : Int) (sco : Bool)
+  | win2 (p e : Nat) (stage : String)     -- |window().periodCount(p).everyCount(e)|<batch receiver>
 
 def modelKind? (kind : String) (p1 p2 : Nat) : Option ModelKind :=
   match kind with
@@ -216,6 +217,7 @@ def modelKind? (kind : String) (p1 p2 : Nat) : Option ModelKind :=
   | "windowcfill" => some (.windowc p1 p2 true)
   | "alertthr" => some (.alertthr p1 false)
   | "alertthrsco" => some (.alertthr p1 true)
+  | "winsample" | "winstatecount" | "winwhere" | "winchange" | "winderiv" | "winsum" | "wincount" => some (.win2 p1 p2 kind)
   | _ => none
 
 def renderOuts (l : List (GroupID × Out)) : List String := l.map (fun go => s!"{go.2.key}|{go.2.time}|{go.2.proj}")
@@ -242,11 +244,22 @@ def runModel (k : ModelKind) (items : List (Item Pt)) : List String :=
   | .derivative nn => renderOuts (runNode (derivativeNode nn) () items)
   | .windowc p e fill => renderOuts (runNode (windowCountNode p e fill) () items)
   | .alertthr a sco => renderOuts (runNode (alertThrNode (thrOf a) sco) () items)
+  | .win2 p e stage =>
+    -- two demultiplexers in a row: the window's batches travel on a batch edge under the batch-edge id
+    let items2 := (runNode (windowCountNodeB p e false) () items).map (fun gb => Item.buffered gb.2.bid gb.2)
+    match stage with
+    | "winsample" => renderOuts (runNode (sampleNodeB 2) () items2)
+    | "winstatecount" => renderOuts (runNode (stateCountNodeB 3) () items2)
+    | "winwhere" => renderOuts (runNode whereCountNodeB () items2)
+    | "winchange" => renderOuts (runNode changeDetectNodeB () items2)
+    | "winderiv" => renderOuts (runNode derivativeNodeB () items2)
+    | "winsum" => renderOuts (runNode (iqlNodeB .sum) {} items2)
+    | _ => renderOuts (runNode (iqlNodeB .count) {} items2)
 
 /-- float sums / float comparisons are outside the concrete models -/
 def modelApplies (k : ModelKind) (pts : List Pt) : Bool :=
   match k with
-  | .iql .sum => pts.all (fun p => match p.v with | .flt _ => false | _ => true)
+  | .iql .sum | .win2 _ _ "winsum" => pts.all (fun p => match p.v with | .flt _ => false | _ => true)
   | _ => true
 
 /-- branches of `alertDetermine` taken by the points of one group (by isolation = what the group does alone) -/
@@ -290,7 +303,8 @@ def judgeIso (lines : Array String) : Verdict := Id.run do
       let some tags := parseTags tags | return .badop l
       let some v := parseV fields | return .badop l
       let some time := time.toInt? | return .badop l
-      pts := pts ++ [({ name := name, key := gkey b name dims tags, v := v, time := time }, toGroupID b name tags dims)]
+      pts := pts ++ [({ name := name, key := gkey b name dims tags, v := v, time := time,
+                        bid := toGroupID b name tags dims.eraseDups }, toGroupID b name tags dims)]
       gps := gps ++ [({ byName := b, name := name, tags := tags, dims := dims }, gkey b name dims tags)]
     | ["full"] =>
       match parseRun o with
@@ -362,6 +376,9 @@ def judgeIso (lines : Array String) : Verdict := Id.run do
       if m.any (fun t => t.endsWith "|s:OK") then brs := addBr brs "alert-recovery"
       for k in distinctKeys keys do
         brs := alertBranches pr (keys.filter (· == k)).length brs
+    | .win2 _ _ _ =>
+      brs := addBr brs "batch-side"
+      if m.any (fun t => t.endsWith "|n:0") then brs := addBr brs "batch-emptied"
     | .statecount _ =>
       if m.length < ptsOnly.length then brs := addBr brs "statecount-eval-error-drop"
       if m.any (fun t => t.endsWith "|i:-1") then brs := addBr brs "statecount-reset"
